@@ -71,6 +71,10 @@ for _p in ("C12", "C03"):
                "another sender handle survives and the channel is still usable. Not repaired: a correct repair needs a distinct error and a policy for an aborted "
                "message in OsIpcReceiverSet::select and the router (today any other error aborts select and stops the router thread).",
                "findings_demo: `cargo run -- crash` -> recv = Err(Disconnected) while the parent's sender still sends and the next recv returns its message"))
+# ---- C09 / C12 (found by the sub-agent seeding C09 as a baseline observation, reproduced with findings_demo `hang`)
+for _p in ("C09", "C12"):
+    F.append(fixed(_p, "SEND-PEER-CLOSED", "SEND-PEER-CLOSED:platform::unix::OsIpcSender::send:followup-while-holding-receive-end", "9d0acbd",
+                   "a multi-fragment send whose receiver was dropped after the first fragment blocked forever: the sender kept its own copy of the per-message receive end open"))
 # ---- C15
 for role in ("single-packet", "fragmented"):
     F.append(fixed("C15", "FD-BOUND", "FD-BOUND:platform::unix::OsIpcSender::send:unbounded-descriptor-count:" + role, "f0938f2",
